@@ -388,8 +388,8 @@ theorem preAt_cfgs (P : List Spec) (i : Nat) :
     PyamgV.C05.preAt (cfgs P) i = cfg (specAt P i).1 (specAt P i).2 := by
   unfold PyamgV.C05.preAt cfgs specAt
   rw [List.length_map]
-  have : PyamgV.C05.dflt = (fun sp : Spec => cfg sp.1 sp.2) (none, []) := rfl
-  rw [this, List.getD_map]
+  simp only [List.getD_eq_getElem?_getD, List.getElem?_map]
+  cases P[min i (P.length - 1)]? <;> rfl
 
 theorem postAt_cfgs (Q : List Spec) (i : Nat) :
     PyamgV.C05.postAt (cfgs Q) i = cfg (specAt Q i).1 (specAt Q i).2 := preAt_cfgs Q i
@@ -424,14 +424,39 @@ theorem flag_refines_model (lv ps qs : List PyVal) (P Q : List Spec) (nl : Nat) 
   rw [hb, tested_eq]
   congr 2
   unfold okUpTo
-  apply List.all_congr rfl
-  intro i hi
-  have hi' : i < nl := Nat.lt_of_lt_of_le (List.mem_range.mp hi) (tested_le _ _ _)
-  have hreg : (specAt P i).1 ∈ regNames := by
-    have := valid_reg _ (hv i hi').1
-    rwa [preAt_cfgs] at this
-  rw [preAt_cfgs, postAt_cfgs]
-  exact levelOkPy_eq_model _ _ _ _ (hsP _ (specAt_mem P hPne i)) (hsQ _ (specAt_mem Q hQne i)) hreg
+  have key : ∀ i ∈ List.range (tested P.length Q.length nl),
+      lvl P Q i = PyamgV.C05.levelOk (PyamgV.C05.preAt (cfgs P) i) (PyamgV.C05.postAt (cfgs Q) i) := by
+    intro i hi
+    have hi' : i < nl := Nat.lt_of_lt_of_le (List.mem_range.mp hi) (tested_le _ _ _)
+    have hreg : (specAt P i).1 ∈ regNames := by
+      have := valid_reg _ (hv i hi').1
+      rwa [preAt_cfgs] at this
+    rw [preAt_cfgs, postAt_cfgs]
+    exact levelOkPy_eq_model _ _ _ _ (hsP _ (specAt_mem P hPne i)) (hsQ _ (specAt_mem Q hQne i)) hreg
+  rw [Bool.eq_iff_iff, List.all_eq_true, List.all_eq_true]
+  constructor
+  · intro h i hi; rw [← key i hi]; exact h i hi
+  · intro h i hi; rw [key i hi]; exact h i hi
+
+/-- **generated flag `True` ⇒ the model's per-level test holds for the pair installed on every level**
+(so the theorems `flag_cycle_symmetric`, `flag_denseM_symmetric_checked`, ... of the hand-written model
+apply to what the source of `change_smoothers` computes) -/
+theorem flag_true_levels (lv ps qs : List PyVal) (P Q : List Spec) (nl : Nat) (b : Bool)
+    (lp : ps.length = P.length) (hP : ∀ i (h : i < ps.length), Rep ps[i] (P.getD i (none, [])))
+    (lq : qs.length = Q.length) (hQ : ∀ i (h : i < qs.length), Rep qs[i] (Q.getD i (none, [])))
+    (hsP : ∀ sp ∈ P, scalarKw sp.2) (hsQ : ∀ sp ∈ Q, scalarKw sp.2)
+    (hlv : lv.length = nl + 1) (hPne : P ≠ []) (hQne : Q ≠ [])
+    (hm : PyamgV.C05.flag (cfgs P) (cfgs Q) nl = some b)
+    (ht : smoothing_change_smoothers_flag (.list lv) (.list ps) (.list qs) = .ok (.bool true)) :
+    ∀ i, i < nl → PyamgV.C05.levelOk (PyamgV.C05.preAt (cfgs P) i) (PyamgV.C05.postAt (cfgs Q) i) = true := by
+  rw [flag_refines_model lv ps qs P Q nl b lp hP lq hQ hsP hsQ hlv hPne hQne hm] at ht
+  have hb : b = true := by cases b <;> simp_all
+  subst hb
+  have h1 : 1 ≤ (cfgs P).length := by
+    have := List.length_pos_iff.mpr hPne; simp [cfgs]; omega
+  have h2 : 1 ≤ (cfgs Q).length := by
+    have := List.length_pos_iff.mpr hQne; simp [cfgs]; omega
+  exact PyamgV.C05.flag_sound _ _ _ h1 h2 hm
 
 /-! ### arguments that are not lists -/
 
